@@ -11,15 +11,22 @@
   impossible, an error cites a span of the source, running out of fuel implies
   `F` (the fuel was below the stated bound), a result satisfies `Q`.
 -/
-import RotoV.Model.Parse
-import RotoV.Lemmas.Lexer
+import RotoV.Lemmas.ParseLexText
 
 namespace RotoV.Parse
 open RotoV RotoV.Lex
 
-/-- a queued item carries a span of the source; token spans are non-empty -/
+/-- what the parser theorems need from the generated lexer tables: the
+punctuation bytes are ASCII (`TablesOk`, as for the lexer theorems) and no
+keyword is given the kind of a literal whose text is sliced (`KwKindsOk`) -/
+structure LexOk : Prop where
+  tables : TablesOk
+  kw : KwKindsOk
+
+/-- a queued item carries a span of the source; token spans are non-empty and
+the text has the shape of the token's kind -/
 def QOk (src : List Char) : QItem → Prop
-  | .tok _ sp => sp.1 < sp.2 ∧ SpanOk src sp
+  | .tok k sp => sp.1 < sp.2 ∧ SpanOk src sp ∧ TextOk k (textOf src sp)
   | .invalid sp => SpanOk src sp
 
 /-- number of `Ok` tokens in the queue -/
@@ -149,7 +156,7 @@ theorem addNode_ok {c : Ctx} {s0 s : PState} {δ : Nat} {F : Prop} (sp : Span) (
 /-! ## the lexer interface -/
 
 section
-variable (T : TablesOk) {c : Ctx}
+variable (T : LexOk) {c : Ctx}
 include T
 
 /-- relation between the states before and after a step that only lexes:
@@ -166,7 +173,8 @@ theorem lexInner_spec {b : Nat} {s0 : PState} (h : InvB b c s0) :
       | some (.tok k sp) => QOk c.src (.tok k sp) ∧ blen s.lx.input + 1 ≤ blen s0.lx.input
       | some (.invalid sp) => QOk c.src (.invalid sp) ∧ blen s.lx.input ≤ blen s0.lx.input)
       (lexInner c s0) := by
-  obtain ⟨it, L', hn, hr, hp, hit⟩ := nextInner_ok' c.P T c.src s0.lx h.reach
+  obtain ⟨it, L', hn, hr, hp, hit⟩ := nextInner_ok' c.P T.tables c.src s0.lx h.reach
+  have htext := fun k sp (e : it = .tok k sp) => nextInner_text T.kw c.P T.tables h.reach (e ▸ hn)
   have e0 := h.reach.blen_input
   have e1 := hr.blen_input
   unfold lexInner
@@ -176,7 +184,7 @@ theorem lexInner_spec {b : Nat} {s0 : PState} (h : InvB b c s0) :
   | invalid sp => exact ⟨⟨hr, h.al, rfl⟩, rfl, hit.2.2, by show blen L'.input ≤ _; omega⟩
   | tok k sp =>
     obtain ⟨h1, h2, h3, h4⟩ := hit
-    refine ⟨⟨hr, ?_, rfl⟩, rfl, ⟨h2, h4⟩, by show blen L'.input + 1 ≤ _; omega⟩
+    refine ⟨⟨hr, ?_, rfl⟩, rfl, ⟨h2, h4, htext k sp rfl⟩, by show blen L'.input + 1 ≤ _; omega⟩
     intro x hx
     simp only at hx
     split at hx
@@ -231,7 +239,7 @@ theorem fail_ok {α : Type} {b : Nat} {s : PState} {F : Prop} {Q : α → PState
 /-- `Parser::next` from a state with at most 3 queued items -/
 theorem pnext_spec {b : Nat} {s0 : PState} (h : InvB b c s0) (hb : b ≤ 3) :
     SpecR c False (Post c s0 1 (fun r _ => SpanOk c.src r.2 ∧
-      ∀ k sp rest, s0.peeked = .tok k sp :: rest → r = (k, sp))) (pnext c s0) := by
+      (∀ k sp rest, s0.peeked = .tok k sp :: rest → r = (k, sp)) ∧ TextOk r.1 (textOf c.src r.2))) (pnext c s0) := by
   unfold pnext
   refine SpecR.bind' (lexNext_spec T h) id ?_
   intro r s ⟨hi, hn, hfront, hr⟩
@@ -242,7 +250,7 @@ theorem pnext_spec {b : Nat} {s0 : PState} (h : InvB b c s0) (hb : b ≤ 3) :
     cases it with
     | invalid sp => exact fail_ok _ hi hr.1
     | tok k sp =>
-      refine ⟨hi2, hr.2, by omega, hr.1.2, ?_⟩
+      refine ⟨hi2, hr.2, by omega, hr.1.2.1, ?_, hr.1.2.2⟩
       intro k' sp' rest e
       have := hfront _ _ e
       cases this; rfl
